@@ -14,6 +14,11 @@ Legs
         foreign json} next to {legacy body, PR34 full body, no body}, older/newer mtimes, both listdir orders.
         oracle: discovery never returns a sidecar or a temp file; with a body present (and nothing that the
         documented tier order ranks above it) it returns the body and the load restores its version.
+ (hist) every history of L writes (agent x state) into ONE shared snapshot directory, a fresh-state load after every
+        write (both listdir orders); time passes between writes (harness-owned clock: files of earlier steps are
+        moved to increasing logical mtimes, the write under test is stamped by the real clock).
+        oracle: the snapshot written LAST is the one that is loaded: path, version, store weights and graph
+        (== its written GEL section); the body at the returned path holds the state it was written from; marker.
 """
 from __future__ import annotations
 
@@ -906,6 +911,163 @@ def enumerate_disc(thorough: bool):
     return cases
 
 
+# ----------------------------------------------------------------------------- write histories in one directory
+# "Loading the LATEST snapshot restores what was written": the rt leg keeps one body per directory, so which body
+# is the latest never matters there.  This leg enumerates histories of writes by several agents into ONE snapshot
+# directory (first writes, re-writes with changed content, re-writes with identical content, bodies of equal and
+# of different length) and loads after every write: the state restored must be the one written LAST.
+HIST_STATES = {
+    # s0 / s1 differ in single digits only: their bodies have the same length for the same agent
+    "s0": {"version": "41", "store": [["node", "a", "weight", 0.5]],
+           "graph": {"nodes": {}, "edges": {"a→b": {"id": "a→b", "src": "a", "dst": "b", "rel": "coact", "weight": 0.5,
+                                                      "attrs": {"coact": 1}, "updated_at": None}}}},
+    "s1": {"version": "42", "store": [["node", "a", "weight", 0.7]],
+           "graph": {"nodes": {}, "edges": {"a→b": {"id": "a→b", "src": "a", "dst": "b", "rel": "coact", "weight": 0.7,
+                                                      "attrs": {"coact": 1}, "updated_at": None}}}},
+    # s2: other ids, a node, two store entries (longer body).  All three graphs are already in sanitised form:
+    # what the write-side sanitisation does to a graph is the rt leg's subject, not this one's.
+    "s2": {"version": "7", "store": [["node", "é", "weight", -0.25], ["edge", "x", "w", 0.125]],
+           "graph": {"nodes": {"x": {"id": "x", "label": "é", "attrs": {}}},
+                     "edges": {"x→é": {"id": "x→é", "src": "x", "dst": "é", "rel": "concept", "weight": -0.25,
+                                       "attrs": {}, "updated_at": "2025-01-01T00:00:00Z"}}}},
+}
+HIST_T0 = 1000          # logical clock (seconds) for files written by earlier steps of a history
+HIST_FRESH = 10 ** 6    # any mtime above this was produced by the real clock
+
+
+def _age_files(d: str, k: int) -> None:
+    """time passes between two writes: every file stamped by the real clock so far (i.e. touched by the most
+    recent write) is moved to logical second HIST_T0+k; files stamped at earlier steps keep their (smaller)
+    logical time, so the relative age order of everything already in the directory is preserved and whatever
+    the next write really replaces is strictly the newest file afterwards."""
+    for e in os.scandir(d):
+        if e.is_file(follow_symlinks=False) and e.stat(follow_symlinks=False).st_mtime > HIST_FRESH:
+            os.utime(e.path, (HIST_T0 + k, HIST_T0 + k))
+
+
+def step_class(ops, i):
+    """shape of step i of a history: what the write does to the directory -> (kind, kind:neighbourhood)"""
+    ag, sx = ops[i]
+    prev = [s for a, s in ops[:i] if a == ag]
+    kind = "first-write" if not prev else ("identical-rewrite" if prev[-1] == sx else "changed-rewrite")
+    return kind, kind + (":shared-dir" if any(a != ag for a, _ in ops[:i]) else ":own-dir")
+
+
+def check_hist(case, d):
+    """returns (violations, outcome tags, transitions, intercepted listdir calls)"""
+    out, tags, steps, calls = [], set(), 0, 0
+    clean_dir(d)
+    ops = [tuple(o) for o in case["ops"]]
+    shape = case.get("shape", "ns")
+    bounds = CFGS["t4-default"][2]
+    for i, (ag, sx) in enumerate(ops):
+        spec = HIST_STATES[sx]
+        kind, cls = step_class(ops, i)   # content failures are classified by kind only, discovery failures by cls
+        tags.add(cls)
+        where = "history %s step %d (%s)" % (J(ops[:i + 1]), i + 1, cls)
+        ctx = mk_ctx("t4-default", d, ag, 3)
+        store0 = build_w(spec["store"])
+        w0 = dict(store0.w)
+        s_in = mk_state(shape, store0, spec["version"], json.loads(json.dumps(spec["graph"])))
+        _age_files(d, i)
+        try:
+            p = snap.write_snapshot(ctx, s_in, spec["version"], applied=1, deltas=None)
+            steps += 1
+            with open(p, "rb") as f:
+                doc = json.loads(f.read().decode("utf-8"))
+        except Exception as e:
+            out.append(("history:write-fails:" + kind, "%s: write_snapshot / reading its body back raised %r" % (where, e)))
+            break
+        gel_w = doc.get("gel") if isinstance(doc, dict) else None
+        bad = []
+        if not isinstance(gel_w, dict) or doc.get("version_etag") != spec["version"] or ref_check_written(spec["graph"], gel_w, bounds):
+            # the file the writer says it wrote does not hold the state it was given
+            bad.append(("history:body-mismatch:" + kind, "%s: body %s holds version %r / gel %s, written from version %r / graph %s" % (
+                where, os.path.basename(p), doc.get("version_etag") if isinstance(doc, dict) else None, J(gel_w)[:200],
+                spec["version"], J(spec["graph"])[:200])))
+        bad += check_marker(p, doc, where)
+        for order in ("asc", "desc"):
+            proxy = _OsProxy(os, order)
+            real_os = snap.os
+            snap.os = proxy
+            sN = mk_state(shape, _Store(), None, None)
+            try:
+                info = snap.load_latest_snapshot(ctx, sN)
+                steps += 1
+            except Exception as e:
+                bad.append(("history:load-raises:" + type(e).__name__, "%s: load_latest_snapshot raised %r" % (where, e)))
+                break
+            finally:
+                snap.os = real_os
+                calls += proxy.calls
+            if not isinstance(info, dict):
+                bad.append(("history:load-returns-non-dict", "%s: load_latest_snapshot returned %r" % (where, info)))
+                break
+            lp = info.get("path")
+            listing = sorted((n, int(os.path.getmtime(os.path.join(d, n)) > HIST_FRESH)) for n in os.listdir(d) if n.endswith(".json"))
+            if not lp or os.path.abspath(lp) != os.path.abspath(p):
+                bad.append(("history:latest-not-picked:" + cls,
+                            "%s: the snapshot written last is %r but the loader read %r; bodies (name, replaced by this write) = %s, listing order %s" % (
+                                where, os.path.basename(p), os.path.basename(lp) if lp else None, J(listing), order)))
+                tags.add("picked-other")
+                break
+            miss = []
+            if not info.get("loaded"):
+                miss.append("loaded=%r" % (info.get("loaded"),))
+            if sget(sN, "version_etag") != spec["version"]:
+                miss.append("version %r != written %r" % (sget(sN, "version_etag"), spec["version"]))
+            if not deq(dict(sget(sN, "store").w), w0):
+                miss.append("store %s != written %s" % (J(w_as_list(sget(sN, "store").w)), J(w_as_list(w0))))
+            if isinstance(gel_w, dict) and not bad:
+                miss += [w for _, w in cmp_loaded(sget(sN, "graph"), gel_w, "graph")]
+            if miss:
+                bad.append(("history:latest-not-restored:" + kind, "%s: %s (listing order %s)" % (where, "; ".join(miss), order)))
+                break
+        if bad:
+            out += bad
+            break
+    return dedupe(out), tags, steps, calls
+
+
+def _hist_worker(chunk, st: Stats, scratch_root):
+    d = os.path.join(scratch_root, "hist-w%d" % os.getpid())
+    os.makedirs(d, exist_ok=True)
+    import logging
+    logging.disable(logging.CRITICAL)
+    for case in chunk:
+        res, tags, steps, calls = check_hist(case, d)
+        st.add("transitions", steps)
+        st.add("validated")
+        st.add("hist_cases")
+        st.add("listdir_intercepted", calls)
+        st.distinct("states", case)
+        st.distinct("outcomes", ("hist",) + tuple(sorted(tags)) + tuple(sorted("FAIL:" + s for s, _ in res)))
+        if any(t.endswith(":shared-dir") or t.startswith(("identical", "changed")) for t in tags):
+            st.add("nontrivial")
+        for sig, what in res:
+            st.violation(sig, what, case)
+    if chunk:
+        st.sample(chunk[len(chunk) // 2])
+    shutil.rmtree(d, ignore_errors=True)
+
+
+def hist_alphabet(thorough: bool):
+    agents = ["A", "B", "é"] if thorough else ["A", "B"]
+    return agents, sorted(HIST_STATES), (4 if thorough else 3)
+
+
+def enumerate_hist(thorough: bool):
+    """all write histories of exactly L steps (every prefix is checked inside the case, so shorter ones are covered)"""
+    agents, states, L = hist_alphabet(thorough)
+    sym = [(a, s) for a in agents for s in states]
+    cases = []
+    for ops in itertools.product(sym, repeat=L):
+        # the state shape alternates deterministically with the history so both are exercised
+        shp = "ns" if (sum(sym.index(o) for o in ops) % 2 == 0) else "dict"
+        cases.append({"kind": "hist", "ops": [list(o) for o in ops], "shape": shp})
+    return cases
+
+
 # ----------------------------------------------------------------------------- PR34 writer marker leg
 def check_auto_marker(d):
     """write_snapshot_auto full + delta: every file written has a sidecar with the marker"""
@@ -928,10 +1090,14 @@ def run(run: Run) -> None:
     cases, skipped = enumerate_rt(run.thorough)
     dcases = enumerate_disc(run.thorough)
     run.notes["rt_cases_enumerated"] = len(cases)
+    hcases = enumerate_hist(run.thorough)
+    h_agents, h_states, h_len = hist_alphabet(run.thorough)
     run.notes["disc_cases_enumerated"] = len(dcases)
+    run.notes["hist_cases_enumerated"] = len(hcases)
+    run.notes["hist_bound"] = {"agents": h_agents, "states": h_states, "writes_per_history": h_len}
     run.notes["unrepresentable_dict_combos_skipped"] = skipped
     run.rule = (
-        "rt: product families F1 one edge (src,dst in {a,b,'é→x',''}^2 x rel x 9 weights x 4 edge-container styles x 5 bounds cfgs"
+        "rt: product families F1 one edge (src,dst in {a,b,'é→x',''}^2 x rel x 9 weights x 4 edge-container styles x 7 bounds cfgs"
         "%s), F2 ordered pairs and F3 ordered triples of edges over sub-alphabets (list + canonical-dict containers), "
         "F4 store maps (<=2 entries, both insertion orders) x versions {'0','41'} x agents {A,'é'} x state shape {dict,namespace} x "
         "{graph,gel} field, F5 meta lists/counter well- and ill-shaped, F6 node containers (dict over all id subsets, list over all "
@@ -939,9 +1105,15 @@ def run(run: Run) -> None:
         "non-trivial = the write-side sanitisation has something to do (non-finite / out-of-range / >6-decimal weight, reversed "
         "orientation, list-shaped container, collapsing duplicates) or the store holds a non-finite weight. "
         "disc: {legacy body, PR34 full body, no body} x every subset of %d neighbour kinds x {older,newer} mtime, both listdir orders "
-        "inside each case." % (" x 3 attrs x 3 updated_at under 2 of the cfgs" if run.thorough else "", len(MEMBERS)))
+        "inside each case. "
+        "hist: every sequence of exactly %d writes over (agent in %s) x (state in %s: two states whose bodies have equal length, "
+        "one longer) into one shared snapshot directory - covers first writes, re-writes with changed and with byte-identical "
+        "content, alone and next to other agents' bodies; after EVERY write a fresh state is loaded (both listdir orders) and must "
+        "get the state written last; non-trivial = a step re-writes an existing body or writes next to another agent's body."
+        % (" x 3 attrs x 3 updated_at under 2 of the cfgs" if run.thorough else "", len(MEMBERS), h_len, h_agents, h_states))
     run.pmap(_rt_worker, cases, extra=(run.scratch,))
     run.pmap(_disc_worker, dcases, extra=(run.scratch,))
+    run.pmap(_hist_worker, hcases, extra=(run.scratch,))
     if run.n.get("listdir_intercepted", 0) == 0:
         raise HarnessError("seam missing: snapshot discovery no longer lists the directory through snapshot.os.listdir/scandir")
     d = os.path.join(run.scratch, "auto")
@@ -958,6 +1130,9 @@ def run(run: Run) -> None:
     run.assume("inverted bounds (min>=max): clamp range unspecified, only rounding + load==written + fixpoint are checked")
     run.assume("rounding: any six-decimal value within 0.5e-6 of the clamped input is accepted (ties may go either way); NaN may map to any in-bounds value")
     run.assume("zstandard not installed: *.json.zst appears only as an unreadable neighbour file")
+    run.assume("hist: time passes between two writes of a history (harness-owned clock: before each write every file stamped by the "
+               "real clock is moved to the next logical second, preserving the age order of the files already present); two writes "
+               "inside one timestamp tick are not enumerated, and the loading ctx is always the agent that wrote last")
     run.assume("SOURCE_DATE_EPOCH pinned so sidecars never read the wall clock; one snapshot directory per execution")
 
 
@@ -971,6 +1146,8 @@ def replay(case):
             return dedupe(check_rt(case, d)[0])
         if case.get("kind") == "disc":
             return check_disc(case, d)[0]
+        if case.get("kind") == "hist":
+            return check_hist(case, d)[0]
         if case.get("kind") == "auto-marker":
             return check_auto_marker(d)
         raise HarnessError("unknown case kind %r" % case.get("kind"))
